@@ -17,8 +17,9 @@ B64 = 'ABCDEFGHIJKLMNOPQRSTUVWXYZabcdefghijklmnopqrstuvwxyz0123456789+/'
 
 
 def pairs_gen(rng):
-    users = ['user', 'u2', 'us', 'admin', 'ü', '日本', '', 'a b', 'x' * 20]
-    pws = ['pa:ss', '', 'p', 'pass', ':', 'p:', 'é', 'sec ret', 'user', 'pa']
+    users = ['user', 'u2', 'us', 'admin', 'ü', '日本', '', 'a b', 'x' * 20, 'u\ufffdx']
+    pws = ['pa:ss', '', 'p', 'pass', ':', 'p:', 'é', 'sec ret', 'user', 'pa', 'pass\ufffdword', '\ufffd']          # U+FFFD is an ordinary character of a credential
+    if rng.random() < 0.3: return [[rng.choice(users), rng.choice(pws)] for _ in range(rng.choice([1, 2]))] + [[rng.choice(users[:4]), rng.choice(pws)] for _ in range(2)]      # one user-id under several passwords
     return [[rng.choice(users), rng.choice(pws)] for _ in range(rng.choice([1, 1, 2, 3, 4]))]
 
 
@@ -30,6 +31,12 @@ def auth_gen(rng, pairs):
     u, p = rng.choice(pairs)
     good = enc(u, p)
     if r < 0.2: return good
+    raw = (u + ':' + p).encode()
+    if rng.random() < 0.15:                                 # non-UTF-8 payloads that differ from a configured pair in one character only
+        bad = rng.choice([b'\xff', b'\xc3', b'\xe3\x81', b'\xed\xa0\x80', b'\xc0\xaf'])
+        if b'\xef\xbf\xbd' in raw: return 'Basic ' + base64.b64encode(raw.replace(b'\xef\xbf\xbd', bad, 1)).decode()
+        i = rng.randrange(len(raw) + 1)
+        return 'Basic ' + base64.b64encode(raw[:i] + bad + raw[i:]).decode()
     if r < 0.25: return None
     if r < 0.45:                                            # one character substituted
         i = rng.randrange(len(good))
